@@ -124,6 +124,7 @@ fn dispatch_case(cx: &mut Ctx, n: u64, case: &Value) {
         "kernel" => ops_kernel::kernel_case(cx, n, case),
         "kernel_fib" => ops_kernel::kernel_fib_case(cx, n, case),
         "kernel_big" => ops_kernel::kernel_big_case(cx, n, case),
+        "kernel_pinned" => ops_kernel::kernel_pinned_case(cx, n, case),
         "hull" => ops_hull::hull_case(cx, n, case),
         "simplify" => ops_simplify::simplify_case(cx, n, case),
         "sweep" => ops_sweep::sweep_case(cx, n, case),
